@@ -522,6 +522,7 @@ Definition doc_ok (d : list item) (tail : option bytes) : bool :=
 (* ---- harness interface ----
    case (0 (xseg ...) fin rd dt)                  raw input, explicit read segments
    case (1 (item ...) tail (len ...) fin rd dt)
+   case (3 (bitem ...) seglen rd)                 a very large document, run-length encoded (see big_plain)
    case (2 tables (xseg ...) fin rd dt)           NewCommentReader with caller-supplied tables (see sx_tables)   document; item = (0 xrun)|(1 xstr)|(2 xline)|(3 xblock),
                                                   tail = () | (xbody); the rendering is cut into
                                                   segments of the given lengths (rest = last segment)
@@ -591,6 +592,65 @@ Definition obs_rd (r : bytes * option (res unit)) (extra : list sx) : sx :=
   | (o, None) => SL (SZ 4 :: SB o :: extra)        (* the consumer stopped reading first *)
   end.
 
+(* ---- very large documents, described run-length encoded ----
+   A body is a list of (pattern, repetitions); the document is never expanded on the model side:
+   by theorem c17_strip the reader's output for a guarded document is its undecorated text, and
+   of that text the model reports the length and the byte sum, computed from the description
+   (Proofs/JsonPlusBig.v: big_obs_sound relates this to the output of [reader_dt] on the expanded
+   document).  The implementation is run on the expanded document. *)
+Definition rle := list (bytes * N).
+Fixpoint rep (p : bytes) (n : nat) : bytes := match n with O => [] | S k => p ++ rep p k end.
+Definition expand (r : rle) : bytes := concat (map (fun pc => rep (fst pc) (N.to_nat (snd pc))) r).
+
+Inductive bitem := BRun (r : rle) | BStr (r : rle) | BLine (r : rle) | BBlock (r : rle).
+Definition expand_item (b : bitem) : item :=
+  match b with BRun r => Run (expand r) | BStr r => Str (expand r) | BLine r => Line (expand r) | BBlock r => Block (expand r) end.
+
+Fixpoint sumN (b : bytes) : N := match b with [] => 0 | c :: t => c + sumN t end.
+Definition rle_len (r : rle) : N := fold_right (fun pc acc => lenN (fst pc) * snd pc + acc) 0 r.
+Definition rle_sum (r : rle) : N := fold_right (fun pc acc => sumN (fst pc) * snd pc + acc) 0 r.
+Definition rle_all (f : bytes -> bool) (r : rle) : bool := forallb (fun pc => f (fst pc)) r.
+
+(* the cheap guard: every pattern is fine on its own (a string pattern ends outside an escape; a
+   block comment pattern has no star at all) *)
+Definition big_item_ok (b : bitem) : bool :=
+  match b with
+  | BRun r => rle_all run_ok r
+  | BStr r => rle_all body_ok r
+  | BLine r => rle_all line_ok r
+  | BBlock r => rle_all (forallb (fun c => negb (c =? star))) r
+  end.
+Definition big_ok (d : list bitem) : bool := forallb big_item_ok d.
+Definition bitem_rle (b : bitem) : rle := match b with BRun r | BStr r | BLine r | BBlock r => r end.
+
+(* (length, byte sum) of the undecorated text *)
+Definition big_plain (d : list bitem) : N * N :=
+  fold_right (fun b acc =>
+                match b with
+                | BRun r => (rle_len r + fst acc, rle_sum r + snd acc)
+                | BStr r => (rle_len r + 2 + fst acc, rle_sum r + 2 * quote + snd acc)
+                | _ => acc
+                end) (0, 0) d.
+
+Fixpoint sx_rle (l : list sx) : option rle :=
+  match l with
+  | [] => Some []
+  | SL [SB p; SZ n] :: t => match sx_rle t with Some r => Some ((p, Z.to_N n) :: r) | None => None end
+  | _ => None
+  end.
+Fixpoint sx_bitems (l : list sx) : option (list bitem) :=
+  match l with
+  | [] => Some []
+  | SL (SZ k :: body) :: t =>
+      match sx_rle body, sx_bitems t with
+      | Some r, Some rest =>
+          if (k =? 0)%Z then Some (BRun r :: rest) else if (k =? 1)%Z then Some (BStr r :: rest)
+          else if (k =? 2)%Z then Some (BLine r :: rest) else if (k =? 3)%Z then Some (BBlock r :: rest) else None
+      | _, _ => None
+      end
+  | _ => None
+  end.
+
 Fixpoint sx_bools (l : list sx) : option (list bool) :=
   match l with
   | [] => Some []
@@ -631,6 +691,14 @@ Definition run_c17 (c : sx) : sx :=
           | None => bad_case
           end
       | _, _ => bad_case
+      end
+  | SL [SZ 3; SL bitems; SZ _; SZ _] =>
+      (* (3 ((kind (xpattern count)...) ...) seglen rdsize): a very large document; observation
+         (0 length bytesum) of the output *)
+      match sx_bitems bitems with
+      | Some d => if big_ok d && forallb (fun b => rle_all wf_bytesb (bitem_rle b)) d
+                  then let '(l, sm) := big_plain d in SL [SZ 0; sN l; sN sm] else bad_case
+      | None => bad_case
       end
   | SL [SZ 2; SL tbs; SL segs; SZ fin; rd; SZ dt] =>
       (* NewCommentReader with the given tables *)
